@@ -5,6 +5,7 @@ package main
 // the size of the term DAG.
 
 import (
+	"sync"
 	"fmt"
 	"math/big"
 	"sort"
@@ -55,6 +56,7 @@ type TermStore struct {
 	next  int
 	funs  map[string]*FunDecl
 	fresh map[string]int
+	mu    sync.Mutex
 }
 
 func NewStore() *TermStore {
@@ -91,6 +93,8 @@ func (ts *TermStore) intern(t *Term) *Term {
 		fmt.Fprintf(&sb, ";%d", a.id)
 	}
 	k := sb.String()
+	ts.mu.Lock()
+	defer ts.mu.Unlock()
 	if x, ok := ts.tab[k]; ok {
 		return x
 	}
